@@ -916,34 +916,16 @@ func (e *Engine) rangeNext(itv Value, ins *ssa.Next) Value {
 		if it.pos >= s.Len() {
 			return Value{O: &Tuple{e: []Value{boolV(false), intV(0), intV(0)}}}
 		}
-		b0 := s.at(it.pos)
 		pos := it.pos
-		var r Value
-		adv := 1
-		if b0.T != nil {
-			// symbolic byte: ASCII alternative is exact; others unsupported
-			isASCII := e.tt.Ult(b0.T, e.tt.Const(0x80, 8))
-			k, _ := e.decide("range-string", []alt{{cond: isASCII}, {cond: e.tt.Not(isASCII)}})
-			if k == 1 {
-				e.unsupported("range over string with symbolic non-ASCII byte")
-			}
-			r = Value{T: e.tt.Zext(b0.T, 32)}
-		} else if b0.N < 0x80 {
-			r = intV(b0.N)
-		} else {
-			// decode natively if the needed bytes are concrete
-			var buf []byte
-			for j := pos; j < s.Len() && j < pos+4; j++ {
-				bj := s.at(j)
-				if bj.T != nil {
-					break
-				}
-				buf = append(buf, byte(bj.N))
-			}
-			rn, size := decodeRune(buf)
-			r = intV(uint64(uint32(rn)))
-			adv = size
+		end := pos + 4
+		if end > s.Len() {
+			end = s.Len()
 		}
+		bs := make([]Value, 0, 4)
+		for j := pos; j < end; j++ {
+			bs = append(bs, s.at(j))
+		}
+		r, adv := e.decodeRuneSym(bs)
 		e.setIterPos(it, pos+adv)
 		return Value{O: &Tuple{e: []Value{boolV(true), intV(uint64(pos)), r}}}
 	}
